@@ -90,6 +90,9 @@ func PanicTrigger(stack []byte) string {
 	return strings.TrimSuffix(s, ".")
 }
 
+// PreCase, if set, runs before every case (per-case harness modes that are a function of the case index).
+var PreCase func(c *Ctx)
+
 // RunCase runs one case with panic capture.
 func RunCase(m *Monitor, c *Ctx, replay json.RawMessage) {
 	defer func() {
@@ -98,6 +101,9 @@ func RunCase(m *Monitor, c *Ctx, replay json.RawMessage) {
 			c.Violate("case", "panic", PanicTrigger(st), fmt.Sprintf("panic: %v\n%s", r, trimStack(st)))
 		}
 	}()
+	if PreCase != nil {
+		PreCase(c)
+	}
 	if replay != nil {
 		if m.Replay == nil {
 			c.Inconclusive("monitor has no replay function")
